@@ -25,6 +25,11 @@ impl Dependencies {
     }
 
     #[inline]
+    pub fn extend(&mut self, other: &Self) {
+        self.0.extend(other.iter().cloned())
+    }
+
+    #[inline]
     pub fn difference<'a>(&'a self, other: &'a Self) -> impl Iterator<Item = &Dependency> + 'a {
         self.0.difference(&other.0)
     }
